@@ -1,6 +1,7 @@
 CONSTANTS
- MaxN = 2
- Family = "label"
+ MaxN = 3
+ PairN = 2
+ Family = "edge"
 SPECIFICATION Spec
 INVARIANT EmitWitnesses
 INVARIANT FaithfulWithoutSep
